@@ -1,13 +1,16 @@
+\* the intended design (Dev = {}): every invariant and every liveness property holds
+\* (tools/props/x01.py generates its cfgs from the same template; safety and liveness are run with different bounds there)
 SPECIFICATION Spec
 CONSTANTS
-  Lines = {1, 2}
-  MaxT = 4
+  Lines = {1}
+  MaxT = 3
   Dev = {}
+  Mixed = FALSE
   Faults = {"version", "query", "row", "scan"}
   MaxStale = 1
-  MaxWire = 2
+  MaxWire = 1
   ReqKinds = {"ok", "empty", "noparse", "noupgrade"}
-INVARIANTS TypeOK NoDuplicate DueDelivered FutureNotSkipped OldNeverDelivered OnlyStoredLines NoBadFrame
-  ServiceStopsAfterHandler DrainerOnlyAfterHandler ClosedOnlyByService RefusedStartsNothing
+INVARIANTS TypeOK FutureNotSkipped OldNeverDelivered OnlyStoredLines ServiceStopsAfterHandler DrainerOnlyAfterHandler
+  ClosedOnlyByService RefusedStartsNothing NoDuplicate DueDelivered NoBadFrame RefusalIsAnError NothingAsCoded
 PROPERTIES NoFrameAfterReturn Termination SenderNeverStuck ClosedEndsHandler EventuallyDelivered
 CHECK_DEADLOCK FALSE
